@@ -6,7 +6,7 @@ Import ListNotations.
 Open Scope Z_scope.
 
 (* Pascal's triangle; C n k = 0 for k > n.  (Specification-level: exponential to run;
-   the executable binomial is Model.Choose.choose, proved equal.) *)
+   the executable binomial is Model.GEChoose.choose, proved equal.) *)
 Fixpoint C (n k : nat) : Z :=
   match n, k with
   | _, O => 1
